@@ -23,6 +23,15 @@ TITLES = [
     ("C13", r"@pos0:(bigint|smallint)", "range pushdown on a BIGINT/SMALLINT key compares the INT literal with the key by DataValue variant order (and start_rowid only supports Int32): missing and extra rows", "src/storage/secondary/rowset/rowset_iterator.rs; disk_rowset.rs start_rowid; src/planner/rules/range.rs (no type/position check)"),
     ("C13", r"@pos0:(varchar|date)", "range pushdown on a non-integer primary key panics in start_rowid ('for now support range-filter scan by sort key type of int32')", "src/storage/secondary/rowset/disk_rowset.rs:165; src/planner/rules/range.rs"),
     ("C13", r"@pos[12]:", "range pushdown when the primary key is not the first table column: start_rowid reads column 0's first keys and the row filter is applied to the first *scanned* column", "src/storage/secondary/rowset/disk_rowset.rs start_rowid; rowset_iterator.rs (id == 0); src/planner/rules/range.rs"),
+    ("C20", r"header", "COPY .. TO with HEADER does not write a header line, but COPY .. FROM with HEADER skips the first line: the first data row is lost", "src/executor/copy_to_file.rs (has_headers only affects serde serialisation); src/executor/copy_from_file.rs"),
+    ("C20", r"import-fails@.*null", "NULL is exported as the text NULL, which cannot be imported into a non-string column", "src/executor/copy_to_file.rs (get_to_string); src/array/data_chunk_builder.rs push_str_row"),
+    ("C20", r"rows-differ@str", "string columns do not round-trip: NULL is exported as the text 'NULL' (imported as that string), the empty string is imported as NULL", "src/executor/copy_to_file.rs; src/array/data_chunk_builder.rs push_str_row"),
+    ("C20", r"rows-differ@nonstr", "non-string columns do not round-trip through CSV (value formatting vs parsing, e.g. extreme doubles)", "src/executor/copy_to_file.rs; src/types"),
+    ("C16", r"lossy-or-invalid-conversion-accepted", "INSERT converts with loss instead of failing: a fractional literal is truncated into an integer column (1.5 -> 1)", "src/array/ops.rs (cast), src/executor/insert.rs"),
+    ("C17", r"optimizer-panics", "the optimizer panics (egg extractor unwrap) on NOT IN over a filtered subquery and on a non-constant LIMIT", "src/planner/optimizer.rs / egg extract; src/planner/rules/plan.rs subquery_rules"),
+    ("C17", r"malformed-plan:unresolved-subquery", "scalar / nested IN subqueries survive optimisation as sub-plans inside expressions (no executor for them)", "src/planner/rules/plan.rs subquery_rules"),
+    ("C17", r"malformed-plan", "the optimised plan violates what the executor requires", "src/planner/rules/plan.rs"),
+    ("C17", r"operator-panics|execution-panics|executor-build-panics", "accepted statements whose plan panics in the executor: RIGHT/FULL nested-loop join todo!(), non-constant LIMIT, scalar subquery forms", "src/executor/nested_loop_join.rs; src/executor/mod.rs"),
     ("C18", r"database-does-not-open", "every row-set index is decoded when the database is opened: one corrupted *.idx file makes Database::new_on_disk panic, so tables that are not affected cannot be read either", "src/storage/secondary/storage.rs bootstrap (DiskRowset::open for all row-sets); src/db.rs new_on_disk unwrap"),
     ("C05", r"outcome_rows-vs-err", "key-range scan fails on disk when the primary key is not the first table column (start_rowid decodes column 0's first keys as i32 and panics); the memory engine answers", "src/storage/secondary/rowset/disk_rowset.rs:141 start_rowid"),
     ("C05", r"rows-differ|column-types", "NULL inserted into a NOT NULL column is stored as 0/'' on disk but as NULL in memory (no NOT NULL check on INSERT)", "src/executor/insert.rs; src/storage/secondary/column (non-nullable encodings)"),
